@@ -211,20 +211,28 @@ func (r *replayer) run(rf *ReplayFile, vecPath string) (bool, string, error) {
 }
 
 func observed(rf *ReplayFile, out string) bool {
-	if strings.Contains(out, "SV-ASSUME-FAILED") {
-		return false
-	}
 	switch rf.Kind {
 	case "assert":
+		// the violation must be printed before any assumption fails: the model only
+		// covers the inputs up to the violating assertion, later inputs default to 0
 		for _, l := range strings.Split(out, "\n") {
+			if strings.Contains(l, "SV-ASSUME-FAILED") {
+				return false
+			}
 			if strings.TrimSpace(l) == "SV-VIOLATION "+rf.Label {
 				return true
 			}
 		}
 		return false
 	case "panic":
+		if strings.Contains(out, "SV-ASSUME-FAILED") {
+			return false
+		}
 		return strings.Contains(out, "SV-PANIC") || strings.Contains(out, "panic:") || strings.Contains(out, "fatal error:")
 	case "clean":
+		if strings.Contains(out, "SV-ASSUME-FAILED") {
+			return false
+		}
 		return !strings.Contains(out, "SV-VIOLATION") && !strings.Contains(out, "SV-PANIC") && strings.Contains(out, "SV-DONE")
 	}
 	return false
@@ -413,7 +421,7 @@ func checkMain(args []string) {
 			inconclusive("run=%s exploration incomplete: aborted=%d unknown=%d pending=%d", rs.Name, res.Aborted, res.Unknown, res.Pending)
 		}
 		for _, l := range rs.Reach {
-			if res.Reach[l] == 0 {
+			if res.Reach[l] == 0 && len(res.Violations) == 0 {
 				inconclusive("run=%s vacuity: label %q reached on no feasible path", rs.Name, l)
 			}
 		}
